@@ -223,7 +223,9 @@ class AsyncTask(futures.FutureBase):
                 return self._generator.send(value)
             else:
                 self._frame = debug.get_frame(self._generator)
-                if hasattr(error, "_task"):
+                if hasattr(error, "_type_") and hasattr(error, "_traceback"):
+                    # stamped by _accept_error of the task that failed (an exception class
+                    # may have a _task attribute of its own, which says nothing about that)
                     return self._generator.throw(error._type_, error, error._traceback)
                 else:
                     # single-argument form: keeps the traceback the error already carries (e.g.
